@@ -165,13 +165,6 @@ func obsSrc(sc relmod.SourceContext) string {
 	return fmt.Sprintf("%s:%d:%d", sc.File, sc.Start.Line, sc.Start.Col)
 }
 
-var knownPayload = func() map[string]payForm {
-	m := map[string]payForm{}
-	for _, f := range goodPayloads {
-		m[f.text] = f
-	}
-	return m
-}()
 
 func tagsOf(attrs map[string]*sysl.Attribute) []string {
 	var out []string
@@ -252,8 +245,8 @@ func expStmts(cs census, an string, app []string, ep *sysl.Endpoint, ss []*sysl.
 			expStmts(cs, an, app, ep, x.Group.Stmt, p)
 		case *sysl.Statement_Ret:
 			if x.Ret.Payload != "" {
-				if f, ok := knownPayload[x.Ret.Payload]; ok {
-					detail = "ret:" + f.status + "/" + strings.ReplaceAll(f.typ, "@", jn(app)) + "/" + f.mods + "/" + f.nvps
+				if m, ok := expectationOf(x.Ret.Payload); ok {
+					detail = m.detail(app)
 				} else {
 					detail = "ret:*"
 				}
@@ -465,8 +458,8 @@ func obsStmtDetail(r relmod.Statement) string {
 		mods := append([]string{}, r.StmtRet.Attr.Modifier...)
 		sort.Strings(mods)
 		var nv []string
-		for k := range r.StmtRet.Attr.Nvp {
-			nv = append(nv, k)
+		for k, v := range r.StmtRet.Attr.Nvp {
+			nv = append(nv, k+"="+renderNv(v))
 		}
 		sort.Strings(nv)
 		d = append(d, "ret:"+r.StmtRet.Status+"/"+obsRetType(r.StmtRet.Type)+"/"+jn(mods)+"/"+jn(nv))
@@ -736,7 +729,13 @@ func judge(c *common.Ctx, cr *caseResult) {
 			c.Fail("nondeterministic", fmt.Sprintf("relmod.Normalize refused %s once and answered %s the second time", name, cr.o2.kind), cr.rp)
 		}
 		if cr.genInfo != nil && !cr.genInfo.bad {
-			c.Fail("refused:valid-payload", fmt.Sprintf("relmod.Normalize refuses a %s that uses only payload forms it accepted before: %s", name, o.msg), cr.rp)
+			key := "refused:valid-payload"
+			if cr.genInfo.shadowed {
+				key = "refused:listed-primitive"
+			} else if cr.genInfo.prefixed {
+				key = "refused:primitive-prefixed-name"
+			}
+			c.Fail(key, fmt.Sprintf("relmod.Normalize refuses a %s whose return payloads all have the documented form status <: type [attributes]: %s", name, o.msg), cr.rp)
 		}
 		return
 	}
